@@ -25,7 +25,7 @@ from .variants import VARIANTS
 ALL_PROPS = [f'C{i:02d}' for i in range(1, 21)]
 
 
-MODERNISE_KINDS = ('suppress', 'else_nest', 'else_unnest', 'cmp_flip', 'tern_expand', 'aug_expand', 'lit_ctor', 'ret_local', 'walrus', 'tern_fold')
+MODERNISE_KINDS = ('suppress', 'else_nest', 'else_unnest', 'cmp_flip', 'tern_expand', 'aug_expand', 'lit_ctor', 'ret_local', 'walrus', 'tern_fold', 'ann_assign')
 _TERMINAL = None
 
 
@@ -80,6 +80,10 @@ def modernise_sites(tree, kind):
                     ok = isinstance(st, ast.If) and len(st.body) == 1 and len(st.orelse) == 1 and isinstance(st.body[0], ast.Assign) and \
                         isinstance(st.orelse[0], ast.Assign) and len(st.body[0].targets) == 1 and len(st.orelse[0].targets) == 1 and \
                         isinstance(st.body[0].targets[0], (ast.Name, ast.Attribute)) and ast.dump(st.body[0].targets[0]) == ast.dump(st.orelse[0].targets[0])
+                elif kind == 'ann_assign':
+                    ok = isinstance(st, ast.Assign) and len(st.targets) == 1 and isinstance(st.targets[0], (ast.Name, ast.Attribute)) and \
+                        not isinstance(parent, (ast.ClassDef, ast.Module)) and \
+                        not (isinstance(st.targets[0], ast.Name) and _declared_global(tree, st))
                 elif kind == 'ret_local':
                     ok = isinstance(st, ast.Return) and st.value is not None and not isinstance(st.value, (ast.Name, ast.Constant))
                 if ok:
@@ -114,6 +118,16 @@ def _first_evaluated_name(test, name):
         else:
             break
     return t if isinstance(t, ast.Name) and t.id == name else None
+
+
+def _declared_global(tree, st):
+    """an annotated assignment to a name declared global / nonlocal in its function is a syntax error"""
+    import ast
+    for fn in ast.walk(tree):
+        if isinstance(fn, (ast.FunctionDef, ast.AsyncFunctionDef)) and any(x is st for x in ast.walk(fn)):
+            if any(isinstance(g, (ast.Global, ast.Nonlocal)) and st.targets[0].id in g.names for g in ast.walk(fn)):
+                return True
+    return False
 
 
 def _first_empty_literal(st):
@@ -195,6 +209,8 @@ def modernise(tree, kind, lineno, col):
                     del lst[i]
                 elif kind == 'tern_fold':
                     lst[i] = ast.Assign(targets=[st.body[0].targets[0]], value=ast.IfExp(test=st.test, body=st.body[0].value, orelse=st.orelse[0].value))
+                elif kind == 'ann_assign':
+                    lst[i] = ast.AnnAssign(target=st.targets[0], annotation=ast.Constant(value='object'), value=st.value, simple=1 if isinstance(st.targets[0], ast.Name) else 0)
                 elif kind == 'ret_local':
                     lst[i:i + 1] = [ast.Assign(targets=[ast.Name(id='_rv', ctx=ast.Store())], value=st.value), ast.Return(value=ast.Name(id='_rv', ctx=ast.Load()))]
                 elif kind == 'aug_expand':
